@@ -51,7 +51,9 @@ func lowerFirst(s string) string { return strings.ToLower(s[:1]) + s[1:] }
 
 // genAPI extracts the tables the C12 model depends on:
 // Permission constants, parseAPIPermission names, getEffectiveMethod classes, session TTL,
-// the Authorization scheme prefixes, the bridge permission, the origin exceptions.
+// the Authorization scheme prefixes, the statement sequence of checkSessionCookie after the session
+// lookup (with the comparison of session.Expired and the assignment of session.Refresh),
+// the bridge permission, the origin exceptions.
 func genAPI() {
 	var sb strings.Builder
 	sb.WriteString("import PB.Bytes\nnamespace PB.Gen.Api\nopen PB\n\n")
@@ -227,6 +229,9 @@ func genAPI() {
 	fmt.Fprintf(&sb, "\n/-- %q -/\ndef bearerPrefix : Bytes := %s\n/-- %q -/\ndef basicPrefix : Bytes := %s\n",
 		prefixes[0], leanBytes(prefixes[0]), prefixes[1], leanBytes(prefixes[1]))
 
+	// ---- sessions: Expired / Refresh / checkSessionCookie / createSession / cleanSessions -------
+	genSessionSteps(&sb, fset, f)
+
 	// ---- bridge permission (api/database.go) ---------------------------------------------------
 	fset2, f2 := parseFile("api/database.go")
 	bridge := ""
@@ -302,4 +307,210 @@ func genAPI() {
 
 	sb.WriteString("\nend PB.Gen.Api\n")
 	write("Api.lean", sb.String())
+}
+
+// stmtString prints a statement on one line.
+func stmtString(fset *token.FileSet, n ast.Node) string {
+	var sb strings.Builder
+	if err := printerFprintNode(&sb, fset, n); err != nil {
+		die("print stmt: %v", err)
+	}
+	return strings.Join(strings.Fields(sb.String()), " ")
+}
+
+// isLogStmt: a call on the log package (log.Tracer(...).Tracef(...), log.Debugf(...)): no effect on the decision.
+func isLogStmt(fset *token.FileSet, st ast.Stmt) bool {
+	es, ok := st.(*ast.ExprStmt)
+	if !ok {
+		return false
+	}
+	if _, ok := es.X.(*ast.CallExpr); !ok {
+		return false
+	}
+	return strings.HasPrefix(stmtString(fset, es), "log.")
+}
+
+func noLogs(fset *token.FileSet, list []ast.Stmt) []ast.Stmt {
+	var out []ast.Stmt
+	for _, st := range list {
+		if !isLogStmt(fset, st) {
+			out = append(out, st)
+		}
+	}
+	return out
+}
+
+// lockedBody checks that a session method starts with `sess.Lock(); defer sess.Unlock()` and returns the rest.
+func lockedBody(fset *token.FileSet, fd *ast.FuncDecl, what string) []ast.Stmt {
+	if fd == nil || fd.Body == nil {
+		die("%s not found", what)
+	}
+	l := fd.Body.List
+	if len(l) < 2 || stmtString(fset, l[0]) != "sess.Lock()" || stmtString(fset, l[1]) != "defer sess.Unlock()" {
+		die("%s: expected to start with sess.Lock(); defer sess.Unlock()", what)
+	}
+	return l[2:]
+}
+
+// genSessionSteps ties the session part of the model to the source:
+//   - session.Expired is exactly `return time.Now().After(sess.validUntil)` (strictly after) or
+//     `return !time.Now().Before(sess.validUntil)` (at or after),
+//   - session.Refresh is exactly `sess.validUntil = time.Now().Add(ttl)`,
+//   - checkSessionCookie, after the lookup of the session, is a sequence of
+//     `if sess.Expired() { [log]; return nil }` | `sess.Refresh(sessionCookieTTL)` | `return sess.token`
+//     (emitted in source order; the model interprets the sequence, so moving the refresh in front of
+//     the expiry check changes the model and breaks the finality theorems),
+//   - createSession refreshes the new session with sessionCookieTTL before storing it,
+//   - cleanSessions deletes exactly the sessions for which Expired() holds.
+//
+// Anything else - another method on the session, a merged check-and-refresh, a refresh inside the
+// expired branch - is an unknown shape: the extractor fails closed.
+func genSessionSteps(sb *strings.Builder, fset *token.FileSet, f *ast.File) {
+	// session.Expired
+	rest := lockedBody(fset, findFunc(f, "Expired", "session"), "session.Expired")
+	if len(rest) != 1 {
+		die("session.Expired: expected a single return after the lock")
+	}
+	strict := ""
+	switch stmtString(fset, rest[0]) {
+	case "return time.Now().After(sess.validUntil)":
+		strict = "true"
+	case "return !time.Now().Before(sess.validUntil)":
+		strict = "false"
+	default:
+		die("session.Expired: unknown comparison %q", stmtString(fset, rest[0]))
+	}
+	// session.Refresh
+	fd := findFunc(f, "Refresh", "session")
+	rest = lockedBody(fset, fd, "session.Refresh")
+	if len(fd.Type.Params.List) != 1 || len(fd.Type.Params.List[0].Names) != 1 || fd.Type.Params.List[0].Names[0].Name != "ttl" ||
+		len(rest) != 1 || stmtString(fset, rest[0]) != "sess.validUntil = time.Now().Add(ttl)" {
+		die("session.Refresh: expected exactly `sess.validUntil = time.Now().Add(ttl)`")
+	}
+	// no other method may touch validUntil
+	for _, d := range f.Decls {
+		fd, ok := d.(*ast.FuncDecl)
+		if !ok || fd.Body == nil {
+			continue
+		}
+		isSess := fd.Recv != nil && findFunc(f, fd.Name.Name, "session") == fd
+		if isSess && (fd.Name.Name == "Expired" || fd.Name.Name == "Refresh") {
+			continue
+		}
+		ast.Inspect(fd.Body, func(n ast.Node) bool {
+			if sel, ok := n.(*ast.SelectorExpr); ok && sel.Sel.Name == "validUntil" {
+				die("%s reads or writes validUntil directly (only session.Expired and session.Refresh are modelled to do so)", fd.Name.Name)
+			}
+			return true
+		})
+	}
+
+	// checkSessionCookie
+	fd = findFunc(f, "checkSessionCookie", "")
+	if fd == nil {
+		die("checkSessionCookie not found")
+	}
+	body := noLogs(fset, fd.Body.List)
+	prefix := []string{
+		"c, err := r.Cookie(sessionCookieName)",
+		"if err != nil { return nil }",
+		"sessionsLock.Lock()",
+		"sess, ok := sessions[c.Value]",
+		"sessionsLock.Unlock()",
+		"if !ok { return nil }",
+	}
+	if len(body) < len(prefix) {
+		die("checkSessionCookie: body too short")
+	}
+	for i, want := range prefix {
+		st := body[i]
+		if is, ok := st.(*ast.IfStmt); ok && is.Init == nil && is.Else == nil {
+			// compare without the log statements of the block
+			cp := *is
+			blk := *is.Body
+			blk.List = noLogs(fset, is.Body.List)
+			cp.Body = &blk
+			st = &cp
+		}
+		if got := stmtString(fset, st); got != want {
+			die("checkSessionCookie: statement %d is %q, expected %q", i, got, want)
+		}
+	}
+	var steps []string
+	for _, st := range body[len(prefix):] {
+		switch x := st.(type) {
+		case *ast.IfStmt:
+			blk := noLogs(fset, x.Body.List)
+			if x.Init != nil || x.Else != nil || stmtString(fset, x.Cond) != "sess.Expired()" || len(blk) != 1 || stmtString(fset, blk[0]) != "return nil" {
+				die("checkSessionCookie: unknown if statement %q (expected `if sess.Expired() { return nil }`)", stmtString(fset, x))
+			}
+			steps = append(steps, ".refuseIfExpired")
+		case *ast.ExprStmt:
+			if stmtString(fset, x) != "sess.Refresh(sessionCookieTTL)" {
+				die("checkSessionCookie: unknown statement %q", stmtString(fset, x))
+			}
+			steps = append(steps, ".refresh")
+		case *ast.ReturnStmt:
+			if stmtString(fset, x) != "return sess.token" {
+				die("checkSessionCookie: unknown return %q", stmtString(fset, x))
+			}
+			steps = append(steps, ".grant")
+		default:
+			die("checkSessionCookie: unknown statement %q", stmtString(fset, st))
+		}
+	}
+	if len(steps) == 0 || steps[len(steps)-1] != ".grant" {
+		die("checkSessionCookie: must end in `return sess.token`")
+	}
+	for _, s := range steps[:len(steps)-1] {
+		if s == ".grant" {
+			die("checkSessionCookie: statements after `return sess.token`")
+		}
+	}
+
+	// createSession: the new session is refreshed with the TTL before it is stored
+	fd = findFunc(f, "createSession", "")
+	if fd == nil {
+		die("createSession not found")
+	}
+	seenNew, seenRefresh, seenStore := -1, -1, -1
+	for i, st := range fd.Body.List {
+		switch stmtString(fset, st) {
+		case "sess := &session{ token: token, }":
+			seenNew = i
+		case "sess.Refresh(sessionCookieTTL)":
+			seenRefresh = i
+		case "sessions[sessionKey] = sess":
+			seenStore = i
+		}
+	}
+	if !(seenNew >= 0 && seenNew < seenRefresh && seenRefresh < seenStore) {
+		die("createSession: expected sess := &session{token: token}; sess.Refresh(sessionCookieTTL); … sessions[sessionKey] = sess")
+	}
+	// cleanSessions: deletes exactly the expired sessions
+	fd = findFunc(f, "cleanSessions", "")
+	if fd == nil {
+		die("cleanSessions not found")
+	}
+	okClean := false
+	for _, st := range fd.Body.List {
+		if rs, ok := st.(*ast.RangeStmt); ok {
+			if stmtString(fset, rs) == "for sessionKey, sess := range sessions { if sess.Expired() { delete(sessions, sessionKey) } }" {
+				okClean = true
+			} else {
+				die("cleanSessions: unknown loop %q", stmtString(fset, rs))
+			}
+		}
+	}
+	if !okClean {
+		die("cleanSessions: loop over sessions not found")
+	}
+
+	sb.WriteString("\n/-- One statement of `checkSessionCookie` after the session has been looked up. -/\ninductive CookieStep\n" +
+		"  | refuseIfExpired   -- `if sess.Expired() { return nil }`\n" +
+		"  | refresh           -- `sess.Refresh(sessionCookieTTL)`\n" +
+		"  | grant             -- `return sess.token`\n" +
+		"  deriving DecidableEq, Repr\n")
+	fmt.Fprintf(sb, "\n/-- `checkSessionCookie` after the lookup, in source order. -/\ndef checkSessionCookieSteps : List CookieStep := [%s]\n", strings.Join(steps, ", "))
+	fmt.Fprintf(sb, "\n/-- `session.Expired` is `time.Now().After(validUntil)` (strictly after: true) or `!time.Now().Before(validUntil)` (false). -/\ndef sessionExpiredStrict : Bool := %s\n", strict)
 }
